@@ -286,3 +286,189 @@ Example key_inj_example : key_inj 1000 [[(1, 2); (1001, 3)]; [(2, 1); (1002, 1)]
 Proof.
   intros p q [<-|[<-|[]]] [<-|[<-|[]]]; vm_compute; intros H; try reflexivity; discriminate.
 Qed.
+
+(* ---------------------------------------------------------------- (c) the sequential branch (kernels below the threshold) *)
+(* Model/Timeout.v run_sequential: one step = one resumption of the chained all_simple_paths generators
+   (a path or exhaustion); clk 0 = start_time, clk i = the reading made when the i-th path was yielded,
+   clk (S (length all)) = the instant of exhaustion.  SeqIgnoresTimeout = the code as shipped,
+   SeqDeadlinePerPath = patches/C19-fix-sequential-timeout.diff. *)
+
+(* the shipped branch on this machine: complete, never flagged, whatever the clock says ... *)
+Theorem sequential_shipped_ignores_clock :
+  forall (clk : nat -> Z) T (all : list path),
+    run_sequential SeqIgnoresTimeout clk T all = mkseq SeqExhausted (S (length all)) false all.
+Proof. intros. apply seq_shipped_lemma. Qed.
+Print Assumptions sequential_shipped_ignores_clock.
+
+(* ... hence untimed: even when no single generator step takes longer than one time unit, for every
+   bound there is an enumeration that keeps the shipped loop busy longer than timeout + bound, no flag
+   (sequential_untimed_refuted above says the same about the black-box model `analyse`) *)
+Theorem sequential_machine_untimed_refuted :
+  forall bound, 0 <= bound ->
+    exists (clk : nat -> Z) T (all : list path),
+      0 <= T /\ StepsWithin clk 1 /\
+      let o := run_sequential SeqIgnoresTimeout clk T all in
+      s_flag o = false /\ T + bound < clk (s_exit o) - clk 0%nat.
+Proof.
+  intros bound Hb. exists (fun i => Z.of_nat i), 0, (repeat [] (Z.to_nat bound)).
+  split; [lia|]. split; [intros i; lia|].
+  rewrite seq_shipped_lemma. simpl s_flag. simpl s_exit. rewrite repeat_length. split; [reflexivity|]. lia.
+Qed.
+Print Assumptions sequential_machine_untimed_refuted.
+
+(* --- the repaired loop --- *)
+
+Theorem sequential_terminates :
+  forall rule (clk : nat -> Z) T (all : list path), s_how (run_sequential rule clk T all) <> SeqOutOfFuel.
+Proof. intros. apply seq_terminates_lemma. Qed.
+Print Assumptions sequential_terminates.
+
+(* what is handed to the post-processing is a PREFIX of the complete enumeration (either rule) *)
+Theorem sequential_result_is_prefix :
+  forall rule (clk : nat -> Z) T (all : list path),
+    exists rest, all = s_result (run_sequential rule clk T all) ++ rest.
+Proof. intros. apply seq_prefix_lemma. Qed.
+Print Assumptions sequential_result_is_prefix.
+
+(* hence every reported entry is an entry of the untimed result (partial_sound) *)
+Theorem sequential_result_sound :
+  forall rule off (clk : nat -> Z) T (all : list path) D,
+    key_inj off all -> post off all = Some D ->
+    exists d, post off (s_result (run_sequential rule clk T all)) = Some d /\ forall e, In e d -> In e D.
+Proof.
+  intros rule off clk T all D KI HD. apply partial_sound_lemma with (all := all); auto. apply seq_incl_lemma.
+Qed.
+Print Assumptions sequential_result_sound.
+
+(* the flag is set exactly when the loop was left through `break`, exactly when the result differs from
+   the complete enumeration, exactly when a genuine path is missing from it *)
+Theorem sequential_flag_iff_cut :
+  forall (clk : nat -> Z) T (all : list path),
+    let o := run_sequential SeqDeadlinePerPath clk T all in
+    (s_flag o = true <-> s_how o = SeqCut) /\
+    (s_flag o = true <-> s_result o <> all) /\
+    (s_flag o = true <-> exists p rest, all = s_result o ++ p :: rest) /\
+    (s_flag o = false <-> s_result o = all).
+Proof. intros. apply seq_flag_iff_cut_lemma. Qed.
+Print Assumptions sequential_flag_iff_cut.
+
+(* where it is cut: at the first reading beyond the deadline that is made on a yielded path; the
+   paths yielded before that reading are all kept *)
+Theorem sequential_cut_at_first_late_reading :
+  forall (clk : nat -> Z) T (all : list path) i,
+    (1 <= i <= length all)%nat -> late clk T i = true ->
+    (forall j, (1 <= j < i)%nat -> late clk T j = false) ->
+    let o := run_sequential SeqDeadlinePerPath clk T all in
+    s_how o = SeqCut /\ s_flag o = true /\ s_exit o = i /\ s_result o = firstn (i - 1) all.
+Proof. intros. apply seq_cut_at_first_late_lemma; assumption. Qed.
+Print Assumptions sequential_cut_at_first_late_reading.
+
+(* timeout -1, or every path is yielded at a reading inside the deadline: complete, no flag *)
+Theorem sequential_complete_when_untimed_or_in_time :
+  forall (clk : nat -> Z) T (all : list path),
+    (T = -1 \/ forall i, (1 <= i <= length all)%nat -> clk i - clk 0%nat <= T) ->
+    let o := run_sequential SeqDeadlinePerPath clk T all in
+    s_how o = SeqExhausted /\ s_flag o = false /\ s_result o = all /\ s_exit o = S (length all).
+Proof. intros. apply seq_complete_lemma; assumption. Qed.
+Print Assumptions sequential_complete_when_untimed_or_in_time.
+
+(* "finishes in time" for a clock that does not run backwards: the last path is yielded inside the
+   deadline (no margin needed, unlike complete_when_in_time_partial for the poll loop) *)
+Theorem sequential_complete_when_last_path_in_time :
+  forall (clk : nat -> Z) T (all : list path),
+    (forall i, clk i <= clk (S i)) -> clk (length all) - clk 0%nat <= T ->
+    let o := run_sequential SeqDeadlinePerPath clk T all in
+    s_how o = SeqExhausted /\ s_flag o = false /\ s_result o = all.
+Proof. intros. apply seq_in_time_lemma; assumption. Qed.
+Print Assumptions sequential_complete_when_last_path_in_time.
+
+(* the loop is left no later than deadline + one generator step *)
+Theorem sequential_time_bounded :
+  forall (clk : nat -> Z) T dmax (all : list path),
+    0 <= T -> StepsWithin clk dmax ->
+    clk (s_exit (run_sequential SeqDeadlinePerPath clk T all)) - clk 0%nat <= T + dmax.
+Proof. intros. apply seq_time_bounded_lemma; assumption. Qed.
+Print Assumptions sequential_time_bounded.
+
+(* the statement sequential_untimed_refuted falsifies for the shipped code, for the repaired one:
+   whatever the kernel length, the search phase of check_for_loopcarried_dep takes at most
+   timeout + one step (a poll interval above the threshold, a generator step below it) *)
+Theorem analysis_time_bounded_repaired :
+  forall rule threshold klen clk step dmax T ws (all : list path),
+    0 <= T -> StepsWithin clk dmax -> (threshold <= klen -> ClockOK clk step) ->
+    let '(flag, wall, res) := analyse_seq rule SeqDeadlinePerPath threshold klen clk step T ws all in
+    wall <= T + dmax.
+Proof.
+  intros rule threshold klen clk step dmax T ws all HT D C. unfold analyse_seq.
+  destruct (threshold <=? klen) eqn:E.
+  - apply Z.leb_le in E. apply time_bounded_lemma; auto.
+  - apply seq_time_bounded_lemma; assumption.
+Qed.
+Print Assumptions analysis_time_bounded_repaired.
+
+(* and below the threshold: no flag => complete; flag => a genuine path is missing *)
+Theorem analysis_sequential_flag_repaired :
+  forall rule threshold klen clk step T ws (all : list path),
+    klen < threshold ->
+    let '(flag, wall, res) := analyse_seq rule SeqDeadlinePerPath threshold klen clk step T ws all in
+    (flag = false <-> res = all) /\ (flag = true <-> exists p rest, all = res ++ p :: rest).
+Proof.
+  intros rule threshold klen clk step T ws all H. unfold analyse_seq.
+  assert (E : (threshold <=? klen) = false) by (apply Z.leb_gt; exact H). rewrite E.
+  destruct (seq_flag_iff_cut_lemma clk T all) as (_ & _ & H3 & H4). split; assumption.
+Qed.
+Print Assumptions analysis_sequential_flag_repaired.
+
+(* the witness family of sequential_machine_untimed_refuted under the repaired rule: cut at the first path *)
+Example sequential_untimed_repaired :
+  forall n, let o := run_sequential SeqDeadlinePerPath (fun i => Z.of_nat i) 0 (repeat ([] : path) (S n)) in
+    s_flag o = true /\ s_exit o = 1%nat /\ s_result o = [].
+Proof. intros n. cbv zeta. unfold run_sequential. simpl. auto. Qed.
+
+(* non-vacuity: timeout 1 s, a path every 0.3 s, six paths: three are kept, the fourth is yielded at 1.2 s *)
+Definition six_paths : list path := [[(1, 1)]; [(2, 1)]; [(3, 1)]; [(4, 1)]; [(5, 1)]; [(6, 1)]].
+Example seq_cut_run :
+  let o := run_sequential SeqDeadlinePerPath (fun i => 300000 * Z.of_nat i) 1000000 six_paths in
+  s_how o = SeqCut /\ s_flag o = true /\ s_exit o = 4%nat /\ s_result o = firstn 3 six_paths.
+Proof. vm_compute. repeat split; reflexivity. Qed.
+Example seq_complete_run :
+  let o := run_sequential SeqDeadlinePerPath (fun i => 100000 * Z.of_nat i) 1000000 six_paths in
+  s_how o = SeqExhausted /\ s_flag o = false /\ s_exit o = 7%nat /\ s_result o = six_paths.
+Proof. vm_compute. repeat split; reflexivity. Qed.
+Example seq_untimed_run :
+  let o := run_sequential SeqDeadlinePerPath (fun i => 300000 * Z.of_nat i) (-1) six_paths in
+  s_flag o = false /\ s_result o = six_paths.
+Proof. vm_compute. split; reflexivity. Qed.
+Example steps_within_example : StepsWithin (fun i => 300000 * Z.of_nat i) 300000.
+Proof. intros i. lia. Qed.
+
+(* ---------------------------------------------------------------- (d) the restriction of the repaired search *)
+(* The repaired code searches, for root u and target t, dg.subgraph(nx.ancestors(dg, t) | {t}) and skips the
+   root when it is not an ancestor.  Over the enumeration `Deps.paths` (the model of all_simple_paths of
+   C05) this yields the same paths in the same order -- for any kept set that contains t and its ancestors. *)
+From OV Require Model.Deps Proofs.SeqRestrict.
+
+Theorem restricted_search_same_paths :
+  forall (W : Type) (keep : nat -> bool) (g : list (Deps.edge (T:=W))) (t F : nat),
+    keep t = true ->
+    (forall f v, (f <= F)%nat -> Deps.paths f g v t <> [] -> keep v = true) ->
+    forall fuel u, (fuel <= F)%nat -> SeqRestrict.paths_pruned keep fuel g u t = Deps.paths fuel g u t.
+Proof. intros W keep g t F. apply SeqRestrict.paths_pruned_same. Qed.
+Print Assumptions restricted_search_same_paths.
+
+(* with the set nx.ancestors computes (decided with the enumeration itself) *)
+Theorem ancestor_restricted_search_same_paths :
+  forall (W : Type) (F : nat) (g : list (Deps.edge (T:=W))) (u t : nat),
+    SeqRestrict.paths_pruned (SeqRestrict.anc_or_target F g t) F g u t = Deps.paths F g u t.
+Proof. intros. apply SeqRestrict.ancestor_pruned_same. Qed.
+Print Assumptions ancestor_restricted_search_same_paths.
+
+(* the complete enumeration of the sequential search (all roots, in kernel order) is unchanged *)
+Theorem ancestor_restricted_enumeration_same :
+  forall (W : Type) (F off : nat) (g : list (Deps.edge (T:=W))) (roots : list nat),
+    flat_map (fun r => SeqRestrict.paths_pruned (SeqRestrict.anc_or_target F g (r + off)) F g r (r + off)) roots =
+    flat_map (fun r => Deps.paths F g r (r + off)) roots.
+Proof.
+  intros. induction roots as [|r rs IH]; [reflexivity|]. simpl. rewrite IH, SeqRestrict.ancestor_pruned_same. reflexivity.
+Qed.
+Print Assumptions ancestor_restricted_enumeration_same.
